@@ -76,7 +76,7 @@ func (w *Worker) stop() {
 func (w *Worker) Close() { w.stop() }
 
 // Do sends one request line and returns the reply line; "exit" if the child terminated instead of
-// answering, "hang" if it did not answer within 5 s.
+// answering, "hang" if it did not answer within 4 s (plus 1 s per 16 K characters of the request).
 func (w *Worker) Do(line string) string {
 	if w.cmd == nil {
 		if err := w.start(); err != nil {
@@ -104,7 +104,9 @@ func (w *Worker) Do(line string) string {
 			return "exit"
 		}
 		return strings.TrimRight(r.s, "\n")
-	case <-time.After(4 * time.Second):
+	// 4 s, and one more second for every 16 K characters of the request (a NAS-PDU of 128 K octets is built, encoded, decoded
+	// for the summary and encoded again for the retention check: about 4 s of honest work)
+	case <-time.After(4*time.Second + time.Duration(len(line)/16384)*time.Second):
 		w.stop()
 		return "hang"
 	}
